@@ -11,6 +11,11 @@ PRELUDE_JSON = ["int", "uint", "nint", "tstr", "text", "bool", "true", "false", 
 PRELUDE_CBOR = PRELUDE_JSON + ["bstr", "bytes"]
 
 
+def clamp(i, fmt):
+    lo = -(1 << 63) if fmt == "json" else -(1 << 64)
+    return max(lo, min(i, (1 << 64) - 1))
+
+
 # ------------------------------------------------------------------ constructors
 def ref(n, args=()):
     return {"k": "ref", "n": n, "args": list(args)}
@@ -481,7 +486,7 @@ class Inst:
             if lo["k"] == "lit" and hi["k"] == "lit":
                 if lo["v"]["k"] == "int":
                     a, b = C.int_val(lo["v"]), C.int_val(hi["v"])
-                    return C.mk_int(r.choice([a, b, a + 1, b - 1, (a + b) // 2, a - 1, b + 1]))
+                    return C.mk_int(clamp(r.choice([a, b, a + 1, b - 1, (a + b) // 2, a - 1, b + 1]), self.fmt))
                 a, b = C.float_val(lo["v"]), C.float_val(hi["v"])
                 return C.mk_float(r.choice([a, b, (a + b) / 2, a - 0.25, b + 0.25]))
             return self.junk()
@@ -499,7 +504,7 @@ class Inst:
             if op in ("lt", "le", "gt", "ge", "eq", "ne") and a is not None:
                 if a["k"] == "int":
                     n = C.int_val(a)
-                    return C.mk_int(r.choice([n - 1, n, n + 1]))
+                    return C.mk_int(clamp(r.choice([n - 1, n, n + 1]), self.fmt))
                 if a["k"] == "text":
                     return r.choice([a, C.mk_text(C.text_val(a) + "x")])
             return self.of_t1(t["t"])
